@@ -152,9 +152,11 @@ class StructCore(object):
         return max([f.align_value(psize) for f in cls.fields])
 
     def unpack(self, data, offset=0, psize=0):
+        base = offset
         for f in self.fields:
             if self.union is False and not self.packed:
-                offset = f.align(offset, psize)
+                # fields are aligned relative to the start of the structure:
+                offset = base + f.align(offset - base, psize)
             try:
                 value = f.unpack(data, offset, psize)
             except Exception:
